@@ -94,7 +94,7 @@ def N1(inp):
     return Res(cl, nontrivial=True, obs=lambda: dict(a=ADDRS[i], b=ADDRS[j], a_dials=da, b_dials=db))
 
 
-FIRST = ('member', 'nonmember', 'removed', 'readonly', 'garbage_int', 'garbage_list', 'utility_unknown')
+FIRST = ('member', 'nonmember', 'removed', 'readonly', 'garbage_int', 'garbage_list', 'utility_unknown', 'empty_list', 'garbage_dict')
 
 
 @obligation('N2', props=('C14', 'C18', 'C10'), quick=[dict()], stubs=_STUBS,
@@ -118,10 +118,10 @@ def N2(inp):
     kind = FIRST[inp.choice('first', len(FIRST))]
     conn = _incoming(inp, fso, tr, 'in')
     first = {'member': m1, 'nonmember': '10.9.9.9:1', 'removed': m2, 'readonly': 'readonly', 'garbage_int': 7,
-             'garbage_list': [1, 2], 'utility_unknown': ['nosuchcommand', 1]}[kind]
+             'garbage_list': [1, 2], 'utility_unknown': ['nosuchcommand', 1], 'empty_list': [], 'garbage_dict': {'a': 1}}[kind]
     _, exc = guard(tr._onIncomingMessageReceived, conn, first)
     accepted_member = kind == 'member' or (kind == 'removed' and not drop_first)
-    hashable = kind not in ('garbage_list', 'utility_unknown')      # a list that is no known utility command: see DESIGN (robustness note, not part of C14)
+    hashable = True      # (lists, dicts and empty lists that are no known utility command are strangers like any other)
     cl['handshake_no_exception'] = exc is None or not hashable
     payload = {'type': 'request_vote', 'term': 5, 'last_log_index': 1, 'last_log_term': 0}
     _, exc2 = _deliver(conn, payload) if conn.state == CONNECTION_STATE.CONNECTED else (None, None)
@@ -256,8 +256,9 @@ def N4(inp):
 @obligation('N5', props=('C14', 'C13'), quick=[dict(via='send'), dict(via='poll_read'), dict(via='poll_write')], stubs=_STUBS,
             bounds='symbolic clock, last-read instant and connection timeout (unbounded reals); a connected member connection')
 def N5(inp, via):
-    """read timeout and truthful send(): a connection that has been silent for more than the timeout is closed at the next send or
-    poll event on it and the disconnect notification fires exactly once; send() returns True only if the connection is
+    """read timeout and truthful send(): a connection whose peer has been silent for more than the timeout while it was being sent to
+    is closed at the next send or writable event and the disconnect notification fires exactly once; a link that was idle in both
+    directions is not torn down at its first use (neither by the first send nor by the first data arriving); send() returns True only if the connection is
     connected before and after; a connection within its timeout stays up."""
     now = inp.real('now', 0)
     timeout = inp.real('timeout', 0, lo_strict=True)
@@ -269,7 +270,12 @@ def N5(inp, via):
     last = inp.real('last_read')
     inp.assume(last <= now)
     setattr(c, '_TcpConnection__lastReadTime', last)
+    last_send = inp.real('last_send')
+    inp.assume(last_send <= now)
+    setattr(c, '_TcpConnection__lastSendTime', last_send)
     silent = now - last > timeout
+    # nothing sent for longer than the timeout either: no answer was due, the link was simply idle (two followers of a living leader)
+    idle = now - last_send > timeout
     T_codec = CODEC[0]
     T_codec.lengths[0] = inp.int('L0', 1, 1000)
     nd0 = len(ev.disc)
@@ -280,7 +286,14 @@ def N5(inp, via):
     tc.socket = realsocket
     up = c.state == CONNECTION_STATE.CONNECTED
     cl = {'no_exception': exc is None}
-    cl['closed_iff_silent_too_long'] = Iff(silent, not up)
+    if via == 'send':
+        # the first message after mutual silence starts the clock; a peer that stays silent while it is being sent to is dropped
+        cl['closed_iff_silent_while_being_sent_to'] = Iff(And(silent, Not(idle)), not up)
+    elif via == 'poll_read':
+        # whatever arrives proves the peer alive (the harness's socket has nothing to read: EAGAIN, no EOF)
+        cl['readable_connection_not_closed_for_silence'] = up
+    else:
+        cl['closed_iff_silent_too_long'] = Iff(silent, not up)
     cl['disconnect_notified_once_iff_closed'] = (len(ev.disc) - nd0) == (0 if up else 1)
     if via == 'send':
         cl['send_result_truthful'] = (res is True) == up
@@ -307,7 +320,7 @@ def N6(inp):
         _, exc2 = guard(getattr(old, '_TcpConnection__processConnection'), 7, POLL_EVENT_TYPE.ERROR)
     elif how == 1:
         setattr(old, '_TcpConnection__lastReadTime', now - 10000)
-        _, exc2 = guard(getattr(old, '_TcpConnection__processConnection'), 7, POLL_EVENT_TYPE.READ)
+        _, exc2 = guard(getattr(old, '_TcpConnection__processConnection'), 7, POLL_EVENT_TYPE.WRITE)      # (the silence check runs on events that bring no data)
     else:
         _, exc2 = guard(old.disconnect)
     CODEC[0].lengths[0] = inp.int('L0', 1, 1000)
